@@ -35,7 +35,7 @@ P4 = pelgen.encode_pel(pelgen.pel_from_spec({'eid': 0x50000004, 'plid': 0x500000
 P5 = pelgen.encode_pel(pelgen.pel_from_spec({'eid': 0x50000001, 'plid': 0x50000005, 'obmc': 5, 'uh': {'flags': 0x6000}, 'sections': [{'t': 'PS'}]}))
 P6 = pelgen.encode_pel(pelgen.pel_from_spec({'eid': 0x00500A07, 'plid': 0x00000A07, 'obmc': 6, 'sections': [{'t': 'PS'}]}))
 EID_OF = {P1: '50000001', P2: '50000002', P4: '50000004', P5: '50000001', P6: '00500A07'}
-MENU = [('pels/T1_50000001', P1), ('pels/T2_50000002', P2), ('pels/T3_50000002.bak', P2), ('pels/other.txt', b'not a pel\n'),
+MENU = [('pels/T1_50000001', P1), ('pels/T2_50000002', P2), ('pels/T3_50000002.bak', P2), ('pels/.other.txt', b'not a pel\n'),
         ('pels/archive/T4_50000004', P4), ('pels/archive/T5_50000001', P5), ('pels/50000001/inner_50000001', P1),
         ('pels/T6_00500A07', P6)]
 FIXED = {'pels': None, 'out': None, 'sibling_50000001.txt': b'outside the pel directory\n', 'exclude.txt': b'BD8D9999\n'}
@@ -44,7 +44,7 @@ COMMANDS = [
     ['-l'], ['-l', '-E'], ['-l', '-r', '-e', '.bak'], ['-a'], ['-a', '-E', '-x'], ['-a', '-E', '-r'], ['-n'], ['-n', '-E'],
     ['-l', '-x', '-E'], ['-i', '50000001'], ['-i', '50000003'], ['-i', '50000004'], ['-i', '50000001', '-x'],
     ['--bmc-id', '1'], ['--bmc-id', '77'], ['--plid', '50000001'], ['--src', 'BD8D'], ['--src-exclude', '@exclude.txt'],
-    ['-f', '@pels/T1_50000001'], ['-f', '@pels/T1_50000001', '-x'], ['-f', '@pels/other.txt'], ['-f', '@pels/archive/T4_50000004'],
+    ['-f', '@pels/T1_50000001'], ['-f', '@pels/T1_50000001', '-x'], ['-f', '@pels/.other.txt'], ['-f', '@pels/archive/T4_50000004'],
     ['-j'], ['-j', '-o', '@out'], ['-j', '-e', '.bak', '-o', '@out'], ['-j', '-E', '-o', '@out'], ['-j', '-E'],
     ['-d', '50000001'], ['-d', '0x50000002'], ['-d', '50000003'], ['-d', '50000004'], ['-d', '00500a07'], ['-i', '0x00500A07'], ['-d', '5000000'], ['-d', '50000002', '-e', '.bak'],
     ['-i', '50000001', '-c'], ['-i', '0x50000002', '-x', '-c'], ['-l', '-c'], ['-a', '-E', '-c'], ['-n', '-c'], ['--plid', '50000001', '-c'],
@@ -182,7 +182,7 @@ def model(before, cmd, after, stdout):
 
 def run_cmd(tree, cmd, order):
     # the directory path itself carries an entry id (50000003, which no file name has): only names may be matched
-    root = tempfile.mkdtemp(prefix='c11_case_50000003_', dir=clidrv.scratch_root())
+    root = tempfile.mkdtemp(prefix='c11_case_50000003_', dir=clidrv.odd_root())
     try:
         materialize(root, tree)
         argv = []
@@ -263,7 +263,7 @@ def _subproc(res):
     tree = initial_tree(255)
     for cmd in (['-l'], ['-d', '50000001'], ['-d', '50000003'], ['-D'], ['-j', '-o', '@out'], ['-j'], ['-i', '50000004'],
                 ['-f', '@pels/T1_50000001'], ['-n', '-E'], ['-d', '5000000']):
-        root = tempfile.mkdtemp(prefix='c11s_', dir=clidrv.scratch_root())
+        root = tempfile.mkdtemp(prefix='c11s_', dir=clidrv.odd_root())
         try:
             materialize(root, tree)
             argv = ([] if cmd[0] == '-f' else ['-p', os.path.join(root, 'pels')]) + \
